@@ -2,7 +2,7 @@
    Statements only; proofs in Proofs/{LogicProofs,SortProofs,RestoreProofs}.v. *)
 From Coq Require Import Permutation Sorted.
 From TV Require Import Prelude.Str Prelude.PosixPath Prelude.SortStable Logic.PyInt Logic.Indexes Logic.Scope
-  Prog.Prog Cmd.Restore Proofs.ProgProofs Proofs.LogicProofs Proofs.SortProofs Proofs.RestoreProofs World.World Proofs.WorldProofs Proofs.WorldRestore Proofs.SortSorted Proofs.Independence Proofs.ListingOverwrite Proofs.ChosenMovesOne Proofs.ChosenMoves.
+  Prog.Prog Cmd.Restore Proofs.ProgProofs Proofs.LogicProofs Proofs.SortProofs Proofs.RestoreProofs World.World Proofs.WorldProofs Proofs.WorldRestore Proofs.SortSorted Proofs.Independence Proofs.ListingOverwrite Proofs.ChosenMovesOne Proofs.ChosenMoves Cmd.Put Cmd.Scan Proofs.StaticScan Proofs.StaticRestore.
 Open Scope Z_scope.
 
 (* scope: an entry is offered iff the requested directory is "/", or is the entry's location itself, or the
@@ -98,6 +98,39 @@ Example with_overwrite_sets_the_flag_only : forall o b,
   ro_overwrite (with_overwrite o b) = b /\ ro_sort (with_overwrite o b) = ro_sort o /\ ro_path (with_overwrite o b) = ro_path o
   /\ with_overwrite o (ro_overwrite o) = o.
 Proof. intros [p s td ow e u] b. repeat split. Qed.
+
+(* ---- which directories are searched (Proofs/StaticRestore.v) ----
+   Under a file system that holds still (StaticScan: fs : op -> res, sane) the search of trash-restore without --trash-dir is:
+   the home trash, then for every mount point that is a directory, in the order of the mount table, $topdir/.Trash/$uid when
+   the rules accept it and then ALWAYS $topdir/.Trash-$uid - both directories of a volume, each once, nothing else; the entries
+   found are threaded through in that order (sread). *)
+Theorem restore_searches_exactly_these_directories : forall fs, sane fs -> forall scope o, ro_trash_dir o = None ->
+  srun fs (all_files_trashed_from_path o scope)
+  = then_run (srun fs (fold_prog (home_trash_dir_path_from_env (rs_environ o))
+                                 (fun acc p => v <- volume_of p ;; restore_scan_dir scope acc (p, v)) []))
+             (sread fs scope (restore_dirs_of_mounts fs (rs_uid o) (fs_mounts fs))).
+Proof. intros fs Hs scope o Htd. apply static_restore_search_lemma; auto. Qed.
+Print Assumptions restore_searches_exactly_these_directories.
+
+Definition ex_fs13 : statics := fun o =>
+  match o with
+  | Prog.Exists p => RBool (str_eqb p ($"/vol/.Trash/7"))
+  | Isdir p => RBool (str_eqb p ($"/vol") || str_eqb p ($"/vol/.Trash") || str_eqb p ($"/vol/.Trash-7"))
+  | Stat _ => RStat 17407%N 0%N
+  | ListMounts => RList [$"/vol"; $"/gone"]
+  | _ => if bool_op o then RBool false else RUnit
+  end.
+Example ex_fs13_sane : sane ex_fs13.
+Proof.
+  constructor.
+  - intros o Hb. destruct o; simpl in *; try discriminate; eauto.
+  - intros p _. simpl. eauto.
+  - simpl. eauto.
+Qed.
+Example both_directories_of_a_volume :
+  restore_dirs_of_mounts ex_fs13 7%N (fs_mounts ex_fs13)
+  = [($"/vol/.Trash/7", $"/vol"); ($"/vol/.Trash-7", $"/vol")].
+Proof. vm_compute. reflexivity. Qed.
 
 (* ---- non-vacuity ---- *)
 Example prefix_sibling_not_in_scope : matches_path ($"/a/foobar") ($"/a/foo") = false /\ matches_path ($"/a/foo/x") ($"/a/foo") = true.
